@@ -4,8 +4,10 @@
 (*                                                                         *)
 (* One run of a top-level (Pure)Scheduler over a tree of jobs and nested   *)
 (* schedulers: requirement-driven start, windows, timeouts, critical       *)
-(* abort, forever jobs, cancellation of nested runs, and the whole         *)
-(* co_shutdown() protocol.  One action per suspension point of the         *)
+(* abort, forever jobs, cancellation of nested runs, the whole             *)
+(* co_shutdown() protocol, and what the caller may do around the run       *)
+(* (cancel it, call shutdown() before it or after it).  One action per     *)
+(* suspension point of the                                                 *)
 (* implementation (asynciojobs/purescheduler.py, scheduler.py, window.py). *)
 (*                                                                         *)
 (* Every guard and every effect is an operator of a configuration C and a  *)
@@ -22,7 +24,11 @@
 (*   tmo[s]   timeout (-1 = None)    stmo[s] shutdown_timeout (-1 = None)  *)
 (*   dur[j]   body duration (>= 0; -1 = never ends; -2 = any: chosen by    *)
 (*            the environment while the behaviour unfolds)                 *)
-(*   out[j]   "ok" | "exc" | "any"   outcome of the body                   *)
+(*   out[j]   "ok" | "exc" | "any"   outcome of the body;  "selfc": the    *)
+(*            body ends in CancelledError on its own (it awaited something *)
+(*            that got cancelled): its task ends cancelled although nobody *)
+(*            cancelled it; the scheduler counts it as completed, but it is*)
+(*            never "done" and releases nobody                             *)
 (*   sdur[j]  duration of the co_shutdown() handler (-1 = never returns)   *)
 (*   cdur[j]  duration of the clean-up a cancelled body performs           *)
 (*   scdur[j] duration of the clean-up a cancelled co_shutdown() performs  *)
@@ -75,6 +81,7 @@ Max(T) == CHOOSE t \in T : \A u \in T : t >= u
 (* State record X                                                          *)
 (*   now        virtual time                                               *)
 (*   st[n]      idle | queued | running | cancelling | ok | exc | cancelled*)
+(*              | selfc (the body ended in CancelledError on its own)      *)
 (*              queued = its task exists, the body has not been entered    *)
 (*              (waiting for the loop, or for a window slot)               *)
 (*   pc[s]      idle | main | tidy | shut | over   phase of s's own run    *)
@@ -105,6 +112,9 @@ Max(T) == CHOOSE t \in T : \A u \in T : t >= u
 
 Live(X, k) == X.st[k] \in {"queued", "running", "cancelling"}
 Fin(X, k)  == X.st[k] \in {"ok", "exc"}
+(* the task has ended while its scheduler was waiting for it: what asyncio.wait *)
+(* returns as done                                                              *)
+Gone(X, k) == X.st[k] \in {"ok", "exc", "selfc"}
 
 Occ(C, X, s)     == Cardinality({k \in Kids(C, s) : X.st[k] \in {"running", "cancelling"}})
 HasRoom(C, X, s) == C.win[s] = 0 \/ Occ(C, X, s) < C.win[s]
@@ -199,10 +209,11 @@ AdmitF(C, X, j) ==
 JobEndG(C, X, j) == /\ IsJob(C, j) /\ X.st[j] = "running"
                     /\ \/ C.dur[j] >= 0 /\ X.now >= X.t0[j] + C.dur[j]
                        \/ C.dur[j] = -2
-OutOK(C, j, o)   == o \in {"ok", "exc"} /\ (C.out[j] = "any" \/ C.out[j] = o)
+OutOK(C, j, o)   == IF o = "selfc" THEN C.out[j] = "selfc"
+                    ELSE o \in {"ok", "exc"} /\ (C.out[j] = "any" \/ C.out[j] = o)
 JobEndF(C, X, j, o) ==
   [X EXCEPT !.st[j] = o, !.te[j] = X.now,
-            !.res[j] = IF o = "ok" THEN <<"ret", j>> ELSE <<"exc", j>>]
+            !.res[j] = IF o = "ok" THEN <<"ret", j>> ELSE IF o = "exc" THEN <<"exc", j>> ELSE NONE]
 
 (* CancelDone(j): a cancelled body has finished its clean-up               *)
 Released(C, X, j)    == IF C.cwait[j] = 0 THEN TRUE ELSE X.st[C.cwait[j]] \in {"cancelling", "ok", "exc", "cancelled"}
@@ -226,7 +237,7 @@ AbortF(C, X, s, why) ==
 (* Process(s, D): asyncio.wait returns with done = D; exceptions consumed, *)
 (* critical check, completion count, successor scan                        *)
 MainG(C, X, s)  == IsSched(C, s) /\ X.st[s] = "running" /\ X.pc[s] = "main" /\ ~X.creq[s]
-Unseen(C, X, s) == {k \in Kids(C, s) : Fin(X, k) /\ k \notin X.proc}
+Unseen(C, X, s) == {k \in Kids(C, s) : Gone(X, k) /\ k \notin X.proc}
 ProcessG(C, X, s, D) == MainG(C, X, s) /\ D # {} /\ D \subseteq Unseen(C, X, s)
 ProcessF(C, X, s, D) ==
   LET X1 == [X EXCEPT !.proc = @ \cup D]
@@ -389,7 +400,7 @@ Act(name, n)  == <<name, n, {}, "-", 0>>
 Acts(C, X) ==
        {Act("Admit", j) : j \in {x \in Nodes(C) : AdmitG(C, X, x)}}
   \cup {<<"JobEnd", j, {}, o, 0>> : j \in {x \in Nodes(C) : JobEndG(C, X, x)},
-                                      o \in {"ok", "exc"}}
+                                      o \in {"ok", "exc", "selfc"}}
   \cup {Act("CancelDone", j) : j \in {x \in Nodes(C) : CancelDoneG(C, X, x)}}
   \cup {Act("HandlerEnd", j) : j \in {x \in Nodes(C) : HandlerEndG(C, X, x)}}
   \cup {Act("HandlerCancelDone", j) : j \in {x \in Nodes(C) : HandlerCancelDoneG(C, X, x)}}
@@ -431,7 +442,7 @@ VARIABLES cfg, S
 vars == <<cfg, S>>
 
 Admit(j)      == AdmitG(cfg, S, j) /\ S' = AdmitF(cfg, S, j)
-JobEnd(j)     == JobEndG(cfg, S, j) /\ \E o \in {"ok", "exc"} : OutOK(cfg, j, o) /\ S' = JobEndF(cfg, S, j, o)
+JobEnd(j)     == JobEndG(cfg, S, j) /\ \E o \in {"ok", "exc", "selfc"} : OutOK(cfg, j, o) /\ S' = JobEndF(cfg, S, j, o)
 CancelDone(j) == CancelDoneG(cfg, S, j) /\ S' = CancelDoneF(cfg, S, j)
 HandlerEnd(j) == HandlerEndG(cfg, S, j) /\ S' = HandlerEndF(cfg, S, j)
 HandlerCancelDone(j) == HandlerCancelDoneG(cfg, S, j) /\ S' = HandlerCancelDoneF(cfg, S, j)
